@@ -160,6 +160,7 @@ func c10One(c *fw.Ctx, id string, i int) {
 	dself.ResolveLocalPath = cross
 	var dfiles []*dst.File
 	before := map[string][]string{} // decl name -> denotations
+	stmtDenotations := map[string][][]string{} // st* function name -> denotations per body statement
 	for _, af := range files {
 		df, err := dself.DecorateFile(af)
 		if err != nil {
@@ -170,6 +171,7 @@ func c10One(c *fw.Ctx, id string, i int) {
 		for _, d := range af.Decls {
 			if n := declName(d); n != "" {
 				before[n] = denotations(d, info)
+				recordStmts(d, info, stmtDenotations)
 			}
 		}
 	}
@@ -183,6 +185,7 @@ func c10One(c *fw.Ctx, id string, i int) {
 	for _, d := range ofiles[0].Decls {
 		if n := declName(d); n != "" {
 			before[n] = denotations(d, oinfo)
+			recordStmts(d, oinfo, stmtDenotations)
 		}
 	}
 
@@ -237,6 +240,68 @@ func c10One(c *fw.Ctx, id string, i int) {
 		c.Nontrivial(srcNaming, tgtNaming, strings.TrimRight(name, "0123456789_"))
 		c.Count("moves", 1)
 	}
+	// statement moves: a self-contained statement of one st* function is appended to the body of a
+	// st* function in another file (same package) or in the other package
+	stFuncs := func(f *dst.File) []*dst.FuncDecl {
+		var out []*dst.FuncDecl
+		for _, d := range f.Decls {
+			if fd, ok := d.(*dst.FuncDecl); ok && strings.HasPrefix(fd.Name.Name, "st") && fd.Body != nil {
+				out = append(out, fd)
+			}
+		}
+		return out
+	}
+	var stmtMoves []string
+	for m := 0; m < 1+r.Intn(3); m++ {
+		si := r.Intn(len(dfiles))
+		srcFns := stFuncs(dfiles[si])
+		if len(srcFns) == 0 {
+			continue
+		}
+		sf := srcFns[r.Intn(len(srcFns))]
+		if len(sf.Body.List) < 2 {
+			continue
+		}
+		var tgtFns []*dst.FuncDecl
+		if cross {
+			tgtFns = stFuncs(otherDst)
+		} else {
+			for ti, f := range dfiles {
+				if ti != si {
+					tgtFns = append(tgtFns, stFuncs(f)...)
+				}
+			}
+		}
+		if len(tgtFns) == 0 {
+			continue
+		}
+		tf := tgtFns[r.Intn(len(tgtFns))]
+		k := r.Intn(len(sf.Body.List))
+		st := sf.Body.List[k]
+		sf.Body.List = append(append([]dst.Stmt(nil), sf.Body.List[:k]...), sf.Body.List[k+1:]...)
+		tf.Body.List = append(tf.Body.List, st)
+		stmtMoves = append(stmtMoves, sf.Name.Name+"["+fmt.Sprint(k)+"] -> "+tf.Name.Name)
+		// expected denotations: the statement's travel from the giving to the receiving function
+		moving := stmtDenotations[sf.Name.Name][k]
+		var rest [][]string
+		rest = append(rest, stmtDenotations[sf.Name.Name][:k]...)
+		rest = append(rest, stmtDenotations[sf.Name.Name][k+1:]...)
+		stmtDenotations[sf.Name.Name] = rest
+		stmtDenotations[tf.Name.Name] = append(stmtDenotations[tf.Name.Name], moving)
+		flatten := func(xs [][]string) []string {
+			var out []string
+			for _, x := range xs {
+				out = append(out, x...)
+			}
+			return out
+		}
+		before[sf.Name.Name] = flatten(stmtDenotations[sf.Name.Name])
+		before[tf.Name.Name] = flatten(stmtDenotations[tf.Name.Name])
+		moved = append(moved, tf.Name.Name, sf.Name.Name)
+		c.Count("statement_moves", 1)
+		c.Observe("move_kinds", "statement")
+	}
+	log = append(log, stmtMoves...)
 	if len(moved) == 0 {
 		return
 	}
@@ -333,4 +398,17 @@ func c10One(c *fw.Ctx, id string, i int) {
 	if i < 3 {
 		c.Sample(map[string]interface{}{"case": id, "moves": log, "alias": alias})
 	}
+}
+
+// recordStmts stores, for a st* function, what each of its body statements denotes.
+func recordStmts(d ast.Decl, info *types.Info, into map[string][][]string) {
+	fd, ok := d.(*ast.FuncDecl)
+	if !ok || !strings.HasPrefix(fd.Name.Name, "st") || fd.Body == nil {
+		return
+	}
+	var per [][]string
+	for _, st := range fd.Body.List {
+		per = append(per, denotations(st, info))
+	}
+	into[fd.Name.Name] = per
 }
